@@ -78,6 +78,93 @@ def _body_lines(stmts: List[ast.stmt]) -> List[int]:
     return sorted(set(lines))[:8]
 
 
+_MUTABLE_CALLS = {"list", "dict", "set", "defaultdict", "OrderedDict", "deque", "Counter", "ChainMap", "WeakKeyDictionary",
+                  "WeakValueDictionary", "CacheAwareDict"}
+
+
+def _is_mutable_literal(v: ast.AST) -> bool:
+    if isinstance(v, (ast.List, ast.Dict, ast.Set, ast.ListComp, ast.DictComp, ast.SetComp)):
+        return True
+    if isinstance(v, ast.Call):
+        f = v.func
+        name = f.id if isinstance(f, ast.Name) else f.attr if isinstance(f, ast.Attribute) else None
+        return name in _MUTABLE_CALLS
+    return False
+
+
+def _shared_containers(tree: ast.Module):
+    """(module-level names, class-level attribute names) bound to a mutable container"""
+    mod, cls = set(), set()
+
+    def targets(st):
+        if isinstance(st, ast.Assign) and _is_mutable_literal(st.value):
+            return [t.id for t in st.targets if isinstance(t, ast.Name)]
+        if isinstance(st, ast.AnnAssign) and st.value is not None and _is_mutable_literal(st.value):
+            return [st.target.id] if isinstance(st.target, ast.Name) else []
+        return []
+
+    for st in tree.body:
+        mod.update(targets(st))
+    for node in ast.walk(tree):
+        if isinstance(node, ast.ClassDef):
+            for st in node.body:
+                cls.update(targets(st))
+    return mod, cls
+
+
+def _mutation_lines(tree: ast.Module) -> Set[int]:
+    """Lines (inside functions) that write into a process-shared mutable container -- a module
+    global or a class-level attribute reached through self / cls -- and the two statements that
+    follow in the same block (the window in which the write is published but its companions are
+    not): hand-rolled memos, shared stacks and counters, registries filled on first use."""
+    mod, cls = _shared_containers(tree)
+    if not mod and not cls:
+        return set()
+
+    def shared(expr: ast.AST) -> bool:
+        if isinstance(expr, ast.Name):
+            return expr.id in mod
+        if isinstance(expr, ast.Attribute) and isinstance(expr.value, ast.Name):
+            return expr.attr in cls and expr.value.id in ("self", "cls")
+        return False
+
+    def writes(st: ast.stmt) -> bool:
+        for node in ast.walk(st):
+            tg = []
+            if isinstance(node, ast.Assign):
+                tg = node.targets
+            elif isinstance(node, (ast.AugAssign, ast.AnnAssign)):
+                tg = [node.target]
+            elif isinstance(node, ast.Delete):
+                tg = node.targets
+            for t in tg:
+                for el in (t.elts if isinstance(t, ast.Tuple) else [t]):
+                    if isinstance(el, ast.Subscript) and shared(el.value):
+                        return True
+            if isinstance(node, ast.Call) and isinstance(node.func, ast.Attribute):
+                if node.func.attr in _MUTATORS and shared(node.func.value):
+                    return True
+        return False
+
+    lines: Set[int] = set()
+    for fn in ast.walk(tree):
+        if not isinstance(fn, (ast.FunctionDef, ast.AsyncFunctionDef)):
+            continue
+        for node in ast.walk(fn):
+            for attr in ("body", "orelse", "finalbody"):
+                block = getattr(node, attr, None)
+                if not isinstance(block, list):
+                    continue
+                for i, st in enumerate(block):
+                    if isinstance(st, ast.stmt) and not isinstance(st, (ast.FunctionDef, ast.ClassDef)) and writes(st):
+                        simple = not isinstance(st, (ast.If, ast.For, ast.While, ast.With, ast.Try))
+                        if simple:
+                            lines.add(st.lineno)
+                            for nxt in block[i + 1 : i + 3]:
+                                lines.add(nxt.lineno)
+    return lines
+
+
 def scan(root: str) -> Dict[str, List[int]]:
     """{absolute file name: [line numbers inside lazy-init bodies]}"""
     sites: Dict[str, List[int]] = {}
@@ -91,7 +178,7 @@ def scan(root: str) -> Dict[str, List[int]]:
                 tree = ast.parse(open(path).read())
             except SyntaxError:
                 continue
-            lines: Set[int] = set()
+            lines: Set[int] = set(_mutation_lines(tree))
             for node in ast.walk(tree):
                 if isinstance(node, ast.Try):
                     # try: x = memo[k] / obj.attr   except KeyError/AttributeError: memo[k] = … (EAFP memo)
